@@ -67,3 +67,11 @@ chk("C13","exploration",
  "The same generated history is executed under the 1-worker baseline and generated alternative configurations (workers, I/O workers, warm-up, caches, upper levels, pre-population, buckets/seed, hasher), each also under seeded schedule perturbation at nomt's lock acquisition points; every run is judged against the reference model (roots per commit, witnesses, values, proofs), hence runs agree with each other.",
  "Thread interleavings are sampled, not enumerated: perturbation (yield / sleep at hook points) diversifies schedules reproducibly in distribution only.",
  "property-based testing: differential across configurations + metamorphic schedule perturbation (proptest)","DESIGN.md §3 C13")
+chk("C17","fault_enumeration",
+ "Every mutating file event (I/O hook) of every commit / rollback of generated histories, from the start of the operation until the fsync of the meta write has completed, is judged against the previous durable image as decoded by the independent decoder right before the operation: writes to ln/bbn only to free-list entries or beyond the old bump, no resize below the bump, no write to the hash-table file, exactly one meta write, rollback segments only grow and are never truncated below / unlinked with a live record. A dedicated adaptive scenario shapes the ln free list around page boundaries of the list itself.",
+ "Events are enumerated exhaustively per generated operation (not for all histories). Byte-identical rewrites of a live page are tolerated (they do not alter the old image). Trusts the decoder and the hook's completeness (guarded by the shadow-vs-disk comparison in C03/C04).",
+ "fault injection style enumeration of pre-switch-over I/O events over generated histories (proptest + I/O hook trace), decoder-based invariant oracle","DESIGN.md §3 C17")
+chk("C15","exploration",
+ "Generated thread programs on one handle (1-4 reader threads holding sessions across stamp-set reads and proofs, 1-3 writer threads committing blocking / non-blocking / via overlays, a rollback phase) under seeded schedule perturbation at nomt's lock points: every session must see exactly one version (values, prev_root, proofs), deferred non-blocking commits hand the changeset back, the successful commits form one chain whose fold equals the final state, losers get Err, and nothing hangs.",
+ "Interleavings are sampled, not enumerated; the harness does not own nomt's scheduler. Known finding KF-C15-1 (warm-up task starvation when one thread holds two sessions) is excluded from generation and pinned as a replay.",
+ "property-based testing: generated concurrent thread programs + version-stamp / linearisation oracle under seeded schedule perturbation (proptest)","DESIGN.md §3 C15")
